@@ -549,7 +549,7 @@ CHECKS = {
     'C20': dict(stages=c20, level='model_checking'),
     'C01': dict(stages=c01, level='model_checking'),
     'C02': dict(stages=c02, level='model_checking'),
-    'C03': dict(stages=simple_sel('C03', ['LawFailsIffEmpty'], extra=[lambda: SLICES('C03'), lambda: traceB_eval(4000, 60000, 'C03', EVAL_ATTR)]), level='model_checking'),
+    'C03': dict(stages=simple_sel('C03', ['LawFailsIffEmpty'], extra=[lambda: SLICES('C03'), lambda: filt('filter-atoms', 'C03', 2, 1, 'both', 'all'), lambda: filt('filter-deep-eq', 'C03', 2, 1, 'both', 'deep'), lambda: traceB_eval(4000, 60000, 'C03', EVAL_ATTR)]), level='model_checking'),
     'C04': dict(stages=simple_sel('C04', extra=[lambda: filterproto(1), lambda: filt('filters', 'C04', 2, 2, 'arr', 'two'), lambda: traceB_eval(3000, 60000, 'C04', EVAL_ATTR)], quick_scope='triples'), level='model_checking'),
     'C07': dict(stages=c07, level='model_checking'),
     'C08': dict(stages=c08, level='model_checking'),
